@@ -13,7 +13,7 @@ PROPERTY = "C02"
 LEVEL = "exploration"
 RULE = (
     "files are rendered from (rows, cols, numeric spellings, separator, leading/trailing padding, noise lines "
-    "before/between/after the rows, what follows ~A, order of the sections before ~A, EOL, final newline); "
+    "before/between/after the rows, what follows ~A, order of the sections before ~A, EOL, final newline, DLM absent or TAB with 1..3 tabs / padded tabs as separator, 20..25 blank or comment lines ahead of the first row); "
     "enumeration = full product of the layout axes that interact in the engines (rows x cols x noise-after x "
     "follows x final-newline x EOL x noise-before) plus every <=k-deviation point of all axes; each file is read "
     "with engine='numpy' and engine='normal'; a case is non-trivial when the LASIO_VERIF engine trace shows the "
@@ -34,6 +34,8 @@ NOISE = {
     "comment_blank": ["#c", ""],
     "spaces": ["   "],
     "icomment": ["  # indented comment"],
+    # the column sniff looks at the first 21 physical lines of the section only
+    "blank20": [""] * 20, "blank21": [""] * 21, "comment25": ["#c"] * 25, "mixed22": ["", "#c"] * 11,
     "tcomment": ["\t#c"],
 }
 FOLLOWS = {
@@ -68,13 +70,14 @@ AXES_THOROUGH = [
     ("sep", [" ", "   ", "\t", " \t"]),
     ("lead", ["", "  ", "\t"]),
     ("trail", ["", "  ", "\t"]),
-    ("before", ["none", "blank", "comment", "blank2", "comment_blank", "spaces", "icomment", "tcomment"]),
+    ("before", ["none", "blank", "comment", "blank2", "comment_blank", "spaces", "icomment", "tcomment", "blank20", "blank21", "comment25", "mixed22"]),
     ("between", ["none", "blank", "comment", "blank2", "comment_blank", "spaces", "icomment", "tcomment"]),
     ("after", ["none", "blank", "comment", "blank2", "comment_blank", "spaces", "icomment", "tcomment"]),
     ("follows", ["nothing", "P", "O", "custom", "P_O", "P_empty"]),
     ("pre", ["VWCP", "VWPC", "VCWP", "VWC"]),
     ("eol", ["\n", "\r\n"]),
     ("final_nl", [True, False]),
+    ("dlm", [None, "TAB"]),
 ]
 CORE = ["rows", "cols", "before", "after", "follows", "eol", "final_nl"]
 DEV = {"quick": 3, "thorough": 4}
@@ -105,14 +108,18 @@ def build_text(pt):
     toks = [[SPELL[(i * cols + j + pt["rot"]) % len(SPELL)] for j in range(cols)] for i in range(rows)]
     curves = [("C%d" % j, "", "", "curve %d" % j) for j in range(cols)]
     pre = {
-        "V": lasgen.version_section("2.0", "NO"),
+        "V": lasgen.version_section("2.0", "NO", dlm=pt.get("dlm")),
         "W": lasgen.well_section("-999.25", extra=[lasgen.item_line("WELL", "", "w1", "well")]),
         "C": lasgen.curve_section(curves),
         "P": ["~Parameter", lasgen.item_line("P1", "", "3", "p")],
     }
     secs = [pre[k] for k in pt["pre"]]
     data = ["~A"] + list(NOISE[pt["before"]])
-    rws = lasgen.data_rows(toks, pt["sep"], pt["lead"], pt["trail"])
+    sep = pt["sep"]
+    if pt.get("dlm") == "TAB":
+        # the declared delimiter names the separator: one tab, several tabs, tab with padding blanks
+        sep = {" ": "\t", "   ": "\t\t", "\t": "\t\t\t", " \t": " \t "}[sep]
+    rws = lasgen.data_rows(toks, sep, pt["lead"], pt["trail"])
     for i, r in enumerate(rws):
         if i:
             data.extend(NOISE[pt["between"]])
